@@ -48,6 +48,12 @@ type Observed struct {
 	RunErr    string  `json:"run_err,omitempty"`
 	Stalled   string  `json:"stalled,omitempty"`
 	Panic     string  `json:"panic,omitempty"`
+	// EndedEarly: Run returned although the context had not been cancelled
+	EndedEarly bool `json:"ended_early,omitempty"`
+	// FeedSlow: a subscriber that takes a value every now and then; FeedIdle: one that only looks
+	// at its slot when everything is over
+	FeedSlow []HeadJ `json:"feed_slow"`
+	FeedIdle []HeadJ `json:"feed_idle"`
 	// geth family: what the fake node pushed on the subscription / answered to eth_getLogs
 	Emitted      []Log    `json:"emitted,omitempty"`
 	FilterGot    [][]Log  `json:"filter_got,omitempty"`
@@ -295,7 +301,7 @@ func (p *provider) FinalisedHeight(ctx context.Context) (uint64, error) {
 			m.NodeFin, m.HasNodeFin = want, true
 		}
 		if err == nil && v != want {
-			p.problems = append(p.problems, fmt.Sprintf("FinalisedHeight = %d; the node answered %d", v, want))
+			p.problems = append(p.problems, fmt.Sprintf("FinalisedHeight = %d; the node's finalised height is %d", v, want))
 		}
 		return v, err
 	}
@@ -460,6 +466,9 @@ func (p *provider) syncBarrier() bool {
 	start := len(p.marks)
 	p.mu.Unlock()
 	return p.waitFor(func() bool {
+		if p.closed {
+			return true // Run has returned: nothing more will happen
+		}
 		for i := start; i < len(p.marks); i++ {
 			m := p.marks[i]
 			fin := m.Fin
@@ -544,6 +553,19 @@ func runCase(c *Case) *Observed {
 		}
 	}()
 
+	// two more subscribers of the same feed
+	slowSub, idleSub := chain.SubscribeL1Head(), chain.SubscribeL1Head()
+	slowDone := make(chan struct{})
+	go func() {
+		defer close(slowDone)
+		for h := range slowSub.Recv() {
+			feedMu.Lock()
+			obs.FeedSlow = append(obs.FeedSlow, *headJ(h))
+			feedMu.Unlock()
+			time.Sleep(400 * time.Microsecond)
+		}
+	}()
+
 	ctx, cancel := context.WithCancel(context.Background())
 	defer cancel()
 	runDone := make(chan struct{})
@@ -600,6 +622,13 @@ func runCase(c *Case) *Observed {
 			stall("CatchUpL1Head did not return")
 		}
 	}
+	if c.Mode != "oneshot" {
+		select {
+		case <-runDone:
+			obs.EndedEarly = true
+		default:
+		}
+	}
 	cancel()
 	select {
 	case <-runDone:
@@ -608,6 +637,16 @@ func runCase(c *Case) *Observed {
 	}
 	feedSub.Unsubscribe()
 	<-feedDone
+	slowSub.Unsubscribe()
+	<-slowDone
+	select {
+	case h, ok := <-idleSub.Recv():
+		if ok {
+			obs.FeedIdle = append(obs.FeedIdle, *headJ(h))
+		}
+	default:
+	}
+	idleSub.Unsubscribe()
 
 	p.mu.Lock()
 	obs.Marks = append([]Mark(nil), p.marks...)
@@ -671,6 +710,11 @@ func execGethOp(p *provider, op Op) bool {
 	case "finfail":
 		p.node.mu.Lock()
 		p.node.finFails = op.N
+		p.node.mu.Unlock()
+		return true
+	case "finnotfound":
+		p.node.mu.Lock()
+		p.node.finNotFound = op.N
 		p.node.mu.Unlock()
 		return true
 	case "suberr":
